@@ -497,7 +497,7 @@ out_decode_error:
     Advance parse pointer c.
     Return number of parsed octets.
 */
-psSize_t tls13ParseSupportedVersions(ssl_t *ssl,
+int32_t tls13ParseSupportedVersions(ssl_t *ssl,
         const unsigned char **c,
         psSize_t len)
 {
